@@ -185,7 +185,7 @@ def program(draw):
             regs.append((nd, si))
         elif kind == "pow":
             p = draw(st.sampled_from(POWS))
-            form = draw(st.sampled_from(["op", "op_float", "np.power"]))
+            form = draw(st.sampled_from(["op", "op_float", "np.power", "op_array_exp", "np.power_array_exp"]))
             prog.append(("pow", form, i, str(p)))
             regs.append((T.dpow(di, p), si))
         elif kind == "red":
@@ -609,6 +609,14 @@ def execute(case, part, leaf_units=None, check=True):
                     r = L[i] ** (e if not isinstance(e, Fr) else float(e))
                 elif form == "op_float":
                     r = L[i] ** float(p)
+                elif form in ("op_array_exp", "np.power_array_exp"):
+                    # the exponent spelled as an array of equal numbers (same shape as an array base; two entries for a scalar
+                    # base, of which the first result is kept): the unit must follow the exponent just the same
+                    f_ = (lambda b_, e_: b_ ** e_) if form == "op_array_exp" else np.power
+                    if np.shape(L[i]) == ():
+                        r = f_(L[i], np.array([float(p), float(p)]))[0]
+                    else:
+                        r = f_(L[i], np.full(np.shape(L[i]), float(p)))
                 else:
                     r = np.power(L[i], float(p))
                 L.append(r)
